@@ -47,6 +47,14 @@
 (*                     t "macro" steps : Seq([k "cu"|"delay", n, onp, onr]) *)
 (*                     t "probe" o : Seq(code), o[l+1] = output on layer l  *)
 (*                     item = [k "op"|"idle"|"hfd", v, op, d]               *)
+(*                     t "sldr"  sequence leader;  t "sk" a plain key that  *)
+(*                     can be part of a sequence (its own output is not     *)
+(*                     judged)                                              *)
+(*            seqs  : Seq([ks : Seq(code), v]) defseq: typing ks after the   *)
+(*                     leader taps v when the last press is processed       *)
+(*                     (sequence trigger; timeouts are not judged: the      *)
+(*                     monitor goes soft when the mode is left idle for     *)
+(*                     seqT-2 ticks),  seqT,                                *)
 (*            slack, qcap, maxd]                                            *)
 (***************************************************************************)
 EXTENDS Obs
@@ -79,7 +87,8 @@ MonInit(p) ==
    osd |-> {},                              \* recognisable codes down at the OS (observed)
    pend |-> <<>>,                           \* expected transitions not yet observed [c, d, age, src]
    mute |-> {},                             \* macro virtual keys re-triggered while playing
-   rt |-> FALSE,                            \* a toggle was issued while the key's state was in flight
+   sqa |-> FALSE, sqb |-> <<>>, sqt |-> 0,  \* sequence mode: active, keys typed so far, ticks since the last one
+   rt |-> {},                               \* virtual keys toggled while their state was in flight (sticky)
    sync |-> TRUE, err |-> ""]
 
 VIt(t, i, src) == [t |-> t, i |-> i, src |-> src]
@@ -96,7 +105,7 @@ VExecOp(m, v, op, src) ==
        [] op = "tap" -> VPush(VPush([m EXCEPT !.want[v] = FALSE], VIt("vd", v, src)), VIt("vu", v, src))
        [] op = "toggle" ->
             IF mac THEN VPush(m, VIt("vd", v, src))
-            ELSE VPush([m EXCEPT !.want[v] = ~w, !.rt = @ \/ (w # m.down[v])],
+            ELSE VPush([m EXCEPT !.want[v] = ~w, !.rt = IF w # m.down[v] THEN @ \cup {v} ELSE @],
                        VIt(IF w THEN "vu" ELSE "vd", v, src))
        [] OTHER -> Fail(m, "C18: unknown virtual key operation")
 
@@ -179,6 +188,14 @@ VDequeue(m) ==
                                       ce |-> <<>>]
                 [] ky.t = "probe" -> LET c == ky.o[VCurLayer(m) + 1] IN
                                      [m |-> VExpect([m0 EXCEPT !.ph[it.i] = c], c, "d", "probe"), ce |-> <<>>]
+                [] ky.t = "sldr" -> [m |-> [m0 EXCEPT !.sqa = TRUE, !.sqb = <<>>, !.sqt = 0], ce |-> <<>>]
+                [] ky.t = "sk" /\ m.sqa ->
+                     LET b == Append(m.sqb, ky.c)
+                         hit == VFirstIdx(p.seqs, LAMBDA sq : sq.ks = b)
+                         pre == \E i \in DOMAIN p.seqs : Len(p.seqs[i].ks) > Len(b) /\ SubSeq(p.seqs[i].ks, 1, Len(b)) = b
+                     IN IF hit # 0 THEN [m |-> [m0 EXCEPT !.sqa = FALSE, !.sqb = <<>>], ce |-> <<"seq", p.seqs[hit].v>>]
+                        ELSE IF pre THEN [m |-> [m0 EXCEPT !.sqb = b, !.sqt = 0], ce |-> <<>>]
+                        ELSE [m |-> [m0 EXCEPT !.sqa = FALSE, !.sqb = <<>>], ce |-> <<>>]
                 [] OTHER -> [m |-> m0, ce |-> <<>>]
          [] it.t = "ku" ->
               LET ky == p.keys[it.i] IN
@@ -195,6 +212,7 @@ VExecRel(m, ops) == IF ops = <<>> THEN m ELSE VExecRel(VExecOp(m, Head(ops).v, H
 VCustom(m, ce) ==
   IF ce # <<>>
   THEN IF ce[1] = "press" THEN VExecItems(m, ce[2], m.p.keys[ce[2]].onp)
+       ELSE IF ce[1] = "seq" THEN VExecOp(m, ce[2], "tap", "op")      \* a completed sequence taps its virtual key
        ELSE VExecRel(m, m.p.keys[ce[2]].onr)
   ELSE IF m.cq = <<>> THEN m
   ELSE LET h == Head(m.cq)
@@ -231,9 +249,12 @@ VRefTick(m) ==
 VRacyMsg == "C18: a toggle issued while an earlier operation on the same virtual key was still queued did not alternate (toggle looks only at processed state)"
 VMuted(m, c) == LET v == VOwner(m.p, c) IN v # 0 /\ v \in m.mute
 
+\* is code c judged through a virtual key that was toggled while in flight?
+VRacy(m, c) == LET v == VOwner(m.p, c) IN
+               IF v # 0 THEN v \in m.rt ELSE \E u \in m.rt : m.p.vk[u].kind = "lwh"
 VUnexpectedMsg(m, e) ==
   LET v == VOwner(m.p, e[2]) IN
-  IF m.rt THEN VRacyMsg
+  IF VRacy(m, e[2]) THEN VRacyMsg
   ELSE IF v # 0 /\ m.hf[v] > 0 /\ e[1] = "u" THEN "C18: hold-for-duration: the key was released before the stated time had passed since its most recent activation"
   ELSE IF v # 0 /\ m.hf[v] > 0 /\ e[1] = "d" THEN "C18: hold-for-duration: a second press while the key is being held (re-arming must only extend)"
   ELSE IF v # 0 /\ \E i \in DOMAIN m.idl : m.idl[i].v = v
@@ -243,7 +264,7 @@ VUnexpectedMsg(m, e) ==
   ELSE "C18: the virtual key's action went up with no operation accounting for it (wrong operation, order or tick)"
 
 VOverdueMsg(m, x) ==
-  IF m.rt THEN VRacyMsg
+  IF VRacy(m, x.c) THEN VRacyMsg
   ELSE IF x.src = "hfd" /\ x.d = "u" THEN "C18: hold-for-duration: the key was not released when the stated time had passed"
   ELSE IF x.src = "hfd" THEN "C18: hold-for-duration: the key was not pressed on activation"
   ELSE IF x.src = "idle" THEN "C18: on-idle did not fire when kanata had been idle for the stated time"
@@ -298,11 +319,13 @@ MonTick(m, out, idle, cb) ==
                                 /\ VCodesOfVk(m4.p.vk[v]) \cap m4.osd = {}}
         m5 == [m4 EXCEPT !.mute = @ \ unm,
                          !.ic = IF idle THEN OMin(@ + 1, VMaxD(m4.p)) ELSE 0]
-    IN IF m5.err = "" /\ VQuiet(m5) THEN [m5 EXCEPT !.rt = FALSE] ELSE m5
+    IN IF ~m5.sqa THEN m5
+       ELSE IF m5.sqt + 2 >= m5.p.seqT THEN [m5 EXCEPT !.sync = FALSE]    \* sequence timeouts are C12's, not judged here
+       ELSE [m5 EXCEPT !.sqt = @ + 1]
 
 RECURSIVE MonSilent(_, _, _, _)
 MonSilent(m, n, idle, cb) ==
   IF n = 0 \/ m.err # "" \/ ~m.sync THEN m
-  ELSE IF VQuiet(m) /\ m.idl = <<>> /\ m.mute = {} THEN m
+  ELSE IF VQuiet(m) /\ m.idl = <<>> /\ m.mute = {} /\ ~m.sqa THEN m
   ELSE MonSilent(MonTick(m, <<>>, idle, cb), n - 1, idle, cb)
 =============================================================================
